@@ -591,7 +591,7 @@ class BaseDiscretizer(BaseEstimator, TransformerMixin):
             JSON serialized object
         """
         # extracting content dictionnaries
-        return {
+        json_serialized = {
             "features": self.features,
             "values_orders": json_serialize_values_orders(self.values_orders),
             "features_casting": self.features_casting,
@@ -603,6 +603,12 @@ class BaseDiscretizer(BaseEstimator, TransformerMixin):
             "features_dropna": self.features_dropna,
             "copy": self.copy,
         }
+
+        # keeping the (already serialized) history of a carver reloaded with load_carver
+        if self._history is not None:
+            json_serialized.update({"_history": self._history})
+
+        return json_serialized
 
     def history(self, feature: str = None) -> DataFrame:
         """Historic of tested combinations and there association with the target.
